@@ -10,7 +10,7 @@
           out_of_range although the sum is representable *)
 From BS Require Import Base ChronoSpec ChronoModel ChronoArith ChronoDecimal ChronoSweep ChronoCalendar ChronoYear
   ChronoSafe ChronoSafeAdd ChronoText ChronoTp ChronoTpParse ChronoTpRt ChronoTs ChronoRefute
-  ChronoDur ChronoDurPrint ChronoDurParse ChronoDurRt ChronoClassify ChronoClassify2 ChronoClassify3 ChronoDurClassify ChronoProps.
+  ChronoDur ChronoDurPrint ChronoDurParse ChronoDurRt ChronoClassify ChronoClassify2 ChronoClassify3 ChronoDurClassify ChronoReject ChronoTotal ChronoDurReject ChronoProps.
 Local Open Scope Z_scope.
 
 (* ---- ParseSecondFractions: exact for every fraction of 1..9 digits (the double integer division
@@ -166,6 +166,53 @@ Theorem T_C15_tp_classify_outside : forall P R f, c14_rep P R -> tf_wf f -> k35_
 Proof. exact tp_classify_grammar. Qed.
 Print Assumptions T_C15_tp_classify_outside.
 
+(* ---- T_C15_tp_classify, second half (texts OUTSIDE the grammar).  tp_lenient (ChronoReject.v) describes, without
+        the parser, the texts ParseIsoUtc lets through (the class of K41 together with the grammar): optional '+',
+        then optional '-', then year-month-dayThour:minute:second with every numeric field a maximal non-empty digit
+        string of ANY length (lfield: either too long for its integer type, which is reported as out_of_range on the
+        spot whatever follows, or in range: month 1..12, day 1..dim year month, 0..23, 0..59, 0..59), the separators
+        '-' '-' 'T' ':' ':', an optional fraction ('.' or ',', digits fitting uint32, at most nine unless all zero),
+        'Z', then anything.  Everything else is invalid_argument, for every precision and representation. ---- *)
+Theorem T_C15_tp_reject : forall P R s, ~ tp_lenient s -> tp_parse P R s = Err InvalidArgument.
+Proof. exact tp_reject. Qed.
+Print Assumptions T_C15_tp_reject.
+
+(* in the words of the full-strength statement: outside the grammar and outside the lenient class *)
+Theorem T_C15_tp_classify_outside_grammar : forall P R s, ~ tp_grammar s -> ~ tp_lenient s ->
+  tp_parse P R s = Err InvalidArgument.
+Proof. exact c15_tp_reject_grammar. Qed.
+Print Assumptions T_C15_tp_classify_outside_grammar.
+
+(* the class is exact (no text of the shape is rejected as invalid by ParseIsoUtc), contains the grammar, and K41 is
+   in it and outside the grammar *)
+Theorem T_C15_tp_lenient_exact : forall s, tp_lenient s <-> parse_iso_utc s <> Err InvalidArgument.
+Proof. exact tp_lenient_exact. Qed.
+Print Assumptions T_C15_tp_lenient_exact.
+
+Theorem T_C15_tp_grammar_lenient : forall s, tp_grammar s -> tp_lenient s.
+Proof. exact grammar_lenient. Qed.
+Print Assumptions T_C15_tp_grammar_lenient.
+
+Example T_C15_tp_lenient_K41 : tp_lenient text_K41 /\ ~ tp_grammar text_K41.
+Proof. exact c15_K41_lenient. Qed.
+Print Assumptions T_C15_tp_lenient_K41.
+
+(* 48 named malformed texts (ChronoReject.tp_malformed: wrong separator at each position, field out of range incl.
+   the day of that month and year, missing 'Z' / truncated, non-digit or sign inside a field, empty field, fraction
+   outside the seconds part / empty / over-long, doubled sign): invalid_argument for every precision and type *)
+Theorem T_C15_tp_malformed : forall P R, Forall (fun s => tp_parse P R s = Err InvalidArgument) tp_malformed.
+Proof. exact tp_malformed_rejected. Qed.
+Print Assumptions T_C15_tp_malformed.
+
+(* on EVERY text (lenient, malformed, anything), int64 / int32 and every precision: invalid_argument, out_of_range, or
+   a count that fits the representation — never undefined behaviour (no signed overflow, no buffer access), never a
+   wrapped count.  (ParseIsoUtc yields fields that are all in range, ChronoTotal.parse_iso_utc_post.) *)
+Theorem T_C15_tp_total : forall P R s, c14_rep P R ->
+  tp_parse P R s = Err InvalidArgument \/ tp_parse P R s = Err OutOfRange \/
+  exists v, tp_parse P R s = Ok v /\ fits R v = true.
+Proof. exact tp_total. Qed.
+Print Assumptions T_C15_tp_total.
+
 (* ---- T_C15_dur_classify.  Specification (ChronoSpec.v): dur_grammar s  =  s is df_render f for fields f with
         df_wf f: [+-]P[nW][nD][T[nH][nM][n[(.|,)f]S]], every n a non-empty digit string of ANY length, 1..9 fraction
         digits, at least one component, 'T' exactly when a time component follows;  dur_expected P R f  =  the count
@@ -207,23 +254,58 @@ Theorem T_C15_dur_class_fine : forall P f, pnum P = 1 ->
 Proof. exact dur_split_fine. Qed.
 Print Assumptions T_C15_dur_class_fine.
 
+(* ---- T_C15_dur_classify, second half (texts OUTSIDE the grammar).  dur_loose (ChronoDurReject.v) describes, without
+        the parser, the class of K42 together with the grammar: optional sign, 'P', then components (digits of any
+        length and the unit letter of the section: W D before 'T', H M S after it; the seconds may carry a fraction),
+        repeated and in any order inside their section, 'T' switching to the time section; after a component the text
+        ends, or white space follows and the rest is ignored.
+        On EVERY text, for int64 / int32 and every precision: invalid_argument, out_of_range, or a count that fits —
+        never undefined behaviour, never out of fuel; and a count only for texts of that shape. ---- *)
+Theorem T_C15_dur_total : forall P R s, rep2 R ->
+  dur_parse P R s = Err InvalidArgument \/ dur_parse P R s = Err OutOfRange \/
+  exists v, dur_parse P R s = Ok v /\ fits R v = true /\ dur_loose s.
+Proof. exact dur_total. Qed.
+Print Assumptions T_C15_dur_total.
+
+Theorem T_C15_dur_outside_shape : forall P R s, rep2 R -> ~ dur_loose s ->
+  dur_parse P R s = Err InvalidArgument \/ dur_parse P R s = Err OutOfRange.
+Proof. exact dur_outside_shape. Qed.
+Print Assumptions T_C15_dur_outside_shape.
+
+Theorem T_C15_dur_grammar_loose : forall s, dur_grammar s -> dur_loose s.
+Proof. exact grammar_loose. Qed.
+Print Assumptions T_C15_dur_grammar_loose.
+
+Example T_C15_dur_loose_K42 : dur_loose text_K42 /\ ~ dur_grammar text_K42.
+Proof. exact c15_K42_loose. Qed.
+Print Assumptions T_C15_dur_loose_K42.
+
+(* 61 named malformed texts (ChronoDurReject.dur_malformed: years and months, unit letter of the other section,
+   fraction outside the seconds part or malformed, missing 'P' / empty / nothing after 'P' or 'T', empty field, sign
+   inside, doubled sign, lower case, digits without unit, doubled or misplaced 'T', separators): invalid_argument for
+   every precision and EVERY representation *)
+Theorem T_C15_dur_malformed : forall P R, Forall (fun s => dur_parse P R s = Err InvalidArgument) dur_malformed.
+Proof. exact dur_malformed_rejected. Qed.
+Print Assumptions T_C15_dur_malformed.
+
 (* ======================================================================================================
    NOT PROVED (kept here at full strength; nothing below is claimed by the obligations above)
 
-   T_C15_tp_classify, second half (texts OUTSIDE the grammar):
-     forall P R s, ~ tp_grammar s -> ~ tp_lenient s -> tp_parse P R s = Err InvalidArgument
-     where tp_lenient is the class of K41, to be given independently of the parser: optional '+' then optional
-     '-', every numeric field any non-empty digit string (in range, or too long for its integer type, which is
-     reported as out_of_range at that point), fraction digits of any length when all zero, anything after 'Z'.
-     Needs the inversion of ParseIsoUtc / std::from_chars (Ok or OutOfRange => the text has that shape); not done.
+   T_C15_tp_classify, second half: proved (T_C15_tp_reject); what remains open there is only the defect itself
+     (K41: tp_lenient is wider than tp_grammar).  Not stated: that tp_of_parts never returns invalid_argument (so
+     that tp_lenient_exact would hold for tp_parse and not only for ParseIsoUtc).
 
-   T_C15_dur_classify, second half (texts OUTSIDE the grammar):
-     forall P R s, ~ dur_grammar s -> ~ dur_lenient s -> dur_parse P R s = Err InvalidArgument
-     where dur_lenient is the class of K42 (components repeated or in any order inside their section, anything
-     after the first white space).  Needs the inversion of the component loop / std::from_chars; not done.
+   T_C15_dur_classify, second half, at full strength:
+     forall P R s, ~ dur_loose s -> dur_parse P R s = Err InvalidArgument
+     is FALSE as it stands: a well-formed leading component that does not convert (P1D into int32 nanoseconds, PT1S
+     into minutes), digits above 2^64-1 (2^63 after '-') or an overflowing fraction addition report out_of_range
+     BEFORE the malformed part is looked at ("P1D;" into duration<int32,nano>).  Proved instead: never a value, never
+     UB (T_C15_dur_total / T_C15_dur_outside_shape), and invalid_argument for the 61 texts of T_C15_dur_malformed.
+     Not done: the exact description of the texts with out_of_range-before-invalid_argument (it depends on P and R),
+     and tightness of dur_loose (every text of the shape gives a value or out_of_range).
      Negative texts into unsigned targets (out_of_range by the first check) are outside rep2 and not stated.
 
-   Representation domains: int8_t targets are outside T_C15_round, T_C15_tp_classify_outside and T_C15_dur_classify_outside (K48); uint64
+   Representation domains: int8_t targets are outside T_C15_round, T_C15_tp_classify_outside, T_C15_dur_classify_outside and the two _total theorems (K48); uint64
    time points (the parser computes the day number in int64, so uint64 day counts above 2^63 are reported
    out_of_range), time_t / tm / char16_t / char32_t targets and inputs: correspondence only.
    ====================================================================================================== *)
